@@ -175,6 +175,8 @@ structure CoreOps where
   drainNext : Drain → M (Option Elem × Drain) := CircBuf.Drain.next
   drainNextBack : Drain → M (Option Elem × Drain) := CircBuf.Drain.nextBack
   drainLen : Drain → M Nat := fun d => pure d.len
+  drainAsSlices : Drain → M (View × View) := CircBuf.Drain.asSlices
+  drainDrop : Drain → M Unit := CircBuf.Drain.drop
 
 def modelOps : CoreOps := {}
 
@@ -194,7 +196,7 @@ def runDrainScript (o : CoreOps) : List Char → Drain → List String → M (Dr
       let n ← o.drainLen d
       runDrainScript o cs d (s!"L{n}" :: acc)
     | 'D' => do
-      let (r, l) ← d.asSlices
+      let (r, l) ← o.drainAsSlices d
       let xs ← readAll (r.slots ++ l.slots)
       xs.forM (fun e => emit (.fmt e.id))
       runDrainScript o cs d (("D" ++ fmtString xs) :: acc)
@@ -377,7 +379,7 @@ def runOp (o : CoreOps) (toks : List String) : M String := do
     | some sb, some eb => do
       let d ← o.drainNew sb eb
       let (d, r) ← runDrainScript o (scriptOf sc) d []
-      if fin = "drop" then d.drop else pure ()
+      if fin = "drop" then o.drainDrop d else pure ()
       pure (";".intercalate r)
     | _, _ => bad
   | ["into_iter", sc] => do
